@@ -143,6 +143,6 @@ def check(ctx):
     layout.r_partition(ctx, 'R08.4')
     layout.r_btree(ctx, 'R08.5')
     from . import c07
-    c07.r_value_to_structural(ctx, 'R08.6')
+    c07.r_value_to_structural(ctx, 'R08.6', only={'List', 'Array', 'Option.None', 'Option.Some'})
     c07.r_shared_callee(ctx)
-    c07.r_layout_tables(ctx, 'R08.7')
+    c07.r_layout_tables(ctx, 'R08.7', c07.LAYOUT_LIST, 10)
